@@ -121,6 +121,45 @@ func init() {
 		p.addObs("reject")
 		p.Samples = append(p.Samples, map[string]any{"accepted_example": "_a0_z9", "rejected_example": "a__z"})
 	}, replay: c18Replay})
+	// (1b) the predicate must not depend on what was validated before: every shard walks ALL strings of
+	// length <= 5 (its own rotation of the alphabet), ascending and then descending, in one process - the
+	// second pass evaluates every string after every other string has been evaluated
+	parts = append(parts, partDef{prop: "C18", name: "c18/predicate-histories", tiers: "qt", run: func(r *runCtx, p *Part) {
+		n := 5
+		p.Bounds = fmt.Sprintf("every string of length <= %d over the alphabet, evaluated in one process in ascending and then descending order (one alphabet rotation per shard)", n)
+		alpha := append(append([]byte(nil), c18Alphabet[r.shard%len(c18Alphabet):]...), c18Alphabet[:r.shard%len(c18Alphabet)]...)
+		var all []string
+		b := make([]byte, n)
+		var rec func(l, d int)
+		rec = func(l, d int) {
+			if d == l {
+				all = append(all, string(b[:l]))
+				return
+			}
+			for _, c := range alpha {
+				b[d] = c
+				rec(l, d+1)
+			}
+		}
+		for l := 0; l <= n; l++ {
+			rec(l, 0)
+		}
+		eval := func(s, pass string) {
+			p.Executions++
+			if got, want := log.VerifIsValidTag(s), refValidTag(s); got != want {
+				p.fail(Violation{Clause: "tag-language", Key: fmt.Sprintf("%q", s), Detail: fmt.Sprintf("%s pass: isValidTag(%q)=%v, documented language says %v", pass, s, got, want)}, s)
+			}
+		}
+		for _, s := range all {
+			eval(s, "ascending")
+		}
+		for i := len(all) - 1; i >= 0; i-- {
+			eval(all[i], "descending (after every other string)")
+		}
+		p.States, p.Transitions = p.Executions, p.Executions
+		p.addObs("accept")
+		p.addObs("reject")
+	}, replay: c18Replay})
 	// (2) segment compositions at total lengths 2..38, with/without leading, trailing, doubled underscores
 	parts = append(parts, partDef{prop: "C18", name: "c18/segment-compositions", tiers: "qt", run: func(r *runCtx, p *Part) {
 		p.Bounds = "all compositions of total lengths 2..38 into 1..5 segments x leading/trailing/doubled underscore; every byte 0..255 at each position of 3 valid tags"
@@ -134,10 +173,15 @@ func init() {
 				comp(total-first, k-1, append(cur, first), f)
 			}
 		}
+		// a group (one composition with its underscore variants; one position of a valid tag with all 256
+		// bytes) is checked in ONE process, in order, and once more after everything else has been checked
+		var again []string
+		mine := false
 		check := func(s string) {
-			if !r.mine() {
+			if !mine {
 				return
 			}
+			again = append(again, s)
 			p.Executions++
 			got, want := log.VerifIsValidTag(s), refValidTag(s)
 			if got != want || want != (tagRe.MatchString(s) && len(s) >= 3 && len(s) <= 36) {
@@ -147,6 +191,7 @@ func init() {
 		for k := 1; k <= 5; k++ {
 			for letters := k; letters <= 38; letters++ {
 				comp(letters, k, nil, func(segs []int) {
+					mine = r.mine()
 					var ps []string
 					for i, n := range segs {
 						ps = append(ps, strings.Repeat(string(rune('a'+i)), n))
@@ -162,12 +207,19 @@ func init() {
 		}
 		for _, valid := range []string{"_a_b", "abc", "_abc_d0_e1_f2"} {
 			for i := 0; i < len(valid); i++ {
+				mine = r.mine()
 				for c := 0; c < 256; c++ {
 					b := []byte(valid)
 					b[i] = byte(c)
 					check(string(b))
 				}
 			}
+		}
+		mine = true
+		first := again
+		again = nil
+		for i := len(first) - 1; i >= 0; i-- {
+			check(first[i])
 		}
 		p.States, p.Transitions = p.Executions, p.Executions
 		p.addObs("accept")
@@ -187,6 +239,7 @@ func init() {
 		}
 		b := make([]byte, n)
 		var batch int
+		history := false
 		verifyAll := func(where string) {
 			got := log.GetAllTags()
 			var want []string
@@ -220,7 +273,7 @@ func init() {
 					p.fail(Violation{Clause: "not-idempotent", Key: fmt.Sprintf("%q", s), Detail: fmt.Sprintf("second RegisterTag(%q): %p vs %p panic=%v", s, t1, t2, pn2)}, s)
 				}
 			}
-			if batch++; batch%500 == 0 {
+			if batch++; !history && batch%500 == 0 {
 				verifyAll("batch")
 				log.VerifReset(keepBuiltinTags, nil)
 				model = map[string]bool{}
@@ -249,6 +302,45 @@ func init() {
 			}
 		}
 		verifyAll("end")
+		// history: every valid name of length <= 3 (thorough 4) is registered first, then EVERY string of that
+		// length goes through RegisterTag, in descending order - the verdict on a name must not depend on
+		// which names were accepted before (in this process: all of them)
+		{
+			hn := n - 1
+			var all []string
+			hb := make([]byte, hn)
+			var hrec func(l, d int)
+			hrec = func(l, d int) {
+				if d == l {
+					all = append(all, string(hb[:l]))
+					return
+				}
+				for _, c := range c18Alphabet {
+					hb[d] = c
+					hrec(l, d+1)
+				}
+			}
+			for l := 1; l <= hn; l++ {
+				hrec(l, 0)
+			}
+			log.VerifReset(keepBuiltinTags, nil)
+			history = true
+			model = map[string]bool{}
+			for _, t := range log.GetAllTags() {
+				model[t] = true
+			}
+			for _, s := range all {
+				if refValidTag(s) {
+					if _, pn := tryRegister(s); pn == nil {
+						model[s] = true
+					}
+				}
+			}
+			for i := len(all) - 1; i >= 0; i-- {
+				one(all[i])
+			}
+			verifyAll("history")
+		}
 		// helpers
 		if r.shard == 0 {
 			partsA := []string{"", "a", "ab1", "a_b", "A", "x-y", "abcdefghijklmnopq"}
